@@ -41,7 +41,7 @@ const aliveDelay = 30 * time.Millisecond
 var (
 	nowMacro  = regexp.MustCompile(`@NOW(?:([+-])([0-9]+))?@`)
 	jsonMacro = regexp.MustCompile(`@JSON:([A-Za-z0-9_-]+):([A-Za-z0-9_]+)@`)
-	longText = strings.Repeat("a", 10000)
+	longText  = strings.Repeat("a", 10000)
 )
 
 func (x *exec_) expand(s string, now int64) string {
@@ -140,7 +140,7 @@ func (x *exec_) run(k int, st *step) *stepObs {
 		if x.srv.running() {
 			o.Body = "procx: already running"
 			o.Replied = x.srv.waitReady(20 * time.Second)
-		} else if err := x.srv.start(); err != nil {
+		} else if err := x.srv.startChecked(); err != nil {
 			o.Body = "procx: " + err.Error()
 		} else {
 			o.Replied = x.srv.waitReady(20 * time.Second)
